@@ -721,9 +721,29 @@ def filtered_comprehension(I, node, gen, seq, sub):
     return FilteredSeq(I, n, elem, keep)
 
 
+def any_over_symseq(I, seq):
+    """any(seq) over a sequence of symbolic length n: a Boolean b with
+        b      ==>  seq[w] for a witness index 0 <= w < n
+        not b  ==>  not seq[k] for every 0 <= k < n   (instantiated lazily: at the index terms that the
+                    verification condition names and at 0, 1, 2 -- complete for n <= 3, e.g. the slice of the
+                    two bisect neighbours; fewer instances only make `not b` weaker: sound)"""
+    ctx = I.ctx
+    n = seq.length
+    b = ctx.fresh("any", "bool")
+    w = ctx.fresh("w", "int")
+
+    def elem(k):
+        return to_z3(I.truth(seq.fn(k)))
+    _assume(I, z3.Implies(b, z3.And(w >= 0, w < to_z3(n), elem(w))))
+    add_index_axiom(I, 0, n, lambda k: _implies(z3.Not(b), z3.Not(elem(k))), extra=[0, 1, 2])
+    I.saw_index(w)
+    return b
+
+
 def install(reg):
     """Hook the set-of-floats model into a registry (instance attributes shadow the registry's
     `unsupported` defaults)."""
+    reg.sym_any = any_over_symseq
     reg.make_set = make_set
     reg.filtered_comprehension = filtered_comprehension
     reg.external["bisect.bisect_left"] = bisect_left_model
